@@ -408,7 +408,56 @@ def unit_merge_attributes(U):
                         [], z3.BoolVal(bool(good)), {}, replay=replay)
 
 
-UNITS = [("container", unit_container), ("json", unit_json), ("eq_hash", unit_eq_hash), ("merge_attributes", unit_merge_attributes)]
+def unit_switch_kept(U):
+    """the module switch belongs to the USER: printing / comparing / hashing Features (with attributes, without any, with an
+    empty value list) under either setting leaves constants.always_return_list as the user set it"""
+    import gffutils.parser as P_
+    for arl in (False, True):
+        for shape, attrs in (("no-attributes", {}), ("one", {"ID": ["g1"]}), ("flag", {"ID": ["g1"], "pseudo": []})):
+            it = Interp()
+
+            def run(ctx, arl=arl, attrs=attrs):
+                with switch(arl):
+                    a = object.__new__(Attributes)
+                    a._d = {k: list(v) for k, v in attrs.items()}
+                    f = blank_feature(seqid="c", source="s", featuretype="gene", start=1, end=5, attributes=a)
+                    g = blank_feature(seqid="c", source="s", featuretype="gene", start=1, end=5, attributes=a)
+                    seen = []
+                    for fn, args in ((F.Feature.__str__, [f]), (F.Feature.__eq__, [f, g]), (F.Feature.__hash__, [f])):
+                        try:
+                            it.call(fn, args, {})
+                        except Undecided:
+                            raise
+                        except Exception as e:
+                            seen.append(("raised", type(e).__name__))
+                        seen.append(constants.always_return_list)
+                    return seen
+
+            def replay(m, arl=arl, attrs=attrs):
+                old = constants.always_return_list
+                constants.always_return_list = arl
+                try:
+                    f = F.Feature(seqid="c", source="s", featuretype="gene", start=1, end=5, attributes={k: list(v) for k, v in attrs.items()})
+                    g = F.feature_from_line("c\ts\tgene\t1\t5\t.\t+\t.\tID=g1")
+                    obs = []
+                    for op in (lambda: f == f, lambda: hash(f), lambda: (str(f) if arl or not attrs else None)):
+                        try:
+                            op()
+                        except Exception as e:
+                            obs.append("raised %s" % type(e).__name__)
+                        obs.append(constants.always_return_list)
+                    view = g["ID"]
+                    exp_view = ["g1"] if arl else "g1"
+                    return {"inputs": {"always_return_list": arl, "attributes": attrs, "then": "another feature's ['ID']"}, "expected": [arl, exp_view],
+                            "observed": [obs, view], "violates": any(x is not arl for x in obs if isinstance(x, bool)) or view != exp_view}
+                finally:
+                    constants.always_return_list = old
+            for p in U.explore(run, it):
+                ok = p.kind == "return" and all(x is arl for x in p.value if isinstance(x, bool)) and len([x for x in p.value if isinstance(x, bool)]) == 3
+                U.prove("C17.switch.kept[%s,always_return_list=%s]#p%d" % (shape, arl, p.index), "str / == / hash of a Feature leave constants.always_return_list as it was set", [], z3.BoolVal(bool(ok)), {}, replay=replay)
+
+
+UNITS = [("switch_kept", unit_switch_kept), ("container", unit_container), ("json", unit_json), ("eq_hash", unit_eq_hash), ("merge_attributes", unit_merge_attributes)]
 try:
     from standins import C17 as _S
     UNITS = UNITS + list(_S.UNITS)
